@@ -18,7 +18,7 @@ func init() { Registry["C08"] = C08 }
 
 type ffiLeaf struct {
 	name, path, goPkg, ffi, use string
-	builtin                   bool
+	builtin                     bool
 }
 
 var ffiLeaves = []ffiLeaf{
@@ -69,7 +69,9 @@ func tlaStrSeq(xs []string) string {
 // element has no dot (legal for local modules; looks like a standard-library path to naive heuristics)
 var c08Mods = map[bool]string{false: "example.com/c08-mod.x", true: "c08app/sub-m.z"}
 
-func (cs c08Case) userPath(k int, u c08User) string { return fmt.Sprintf("%s/k%d/%s", c08Mods[cs.groveDep], k, u.dir) }
+func (cs c08Case) userPath(k int, u c08User) string {
+	return fmt.Sprintf("%s/k%d/%s", c08Mods[cs.groveDep], k, u.dir)
+}
 
 // importsInOrder: the sequence of imports as goose collects them (file a then file b)
 func (u c08User) importsInOrder() []string { return append(append([]string{}, u.order...), u.fileB...) }
